@@ -124,22 +124,13 @@ func c09R3(r *Run, pf, mf *c09fn) {
 		for v := range idx {
 			iv = v
 		}
-		if ph, isPhi := iv.(*ssa.Phi); okIdx && isPhi && isInduction(ph) {
-			facts := c.e.factsAt(fti.Block())
+		if ph, isPhi := iv.(*ssa.Phi); okIdx && isPhi {
 			nf := callsIn(c, structCase, "iface(reflect.Type).NumField")
-			okIdx = len(nf) == 1 && c.e.entails(c.e.lin(nf[0]).plus(c.e.lin(ph), -1).addc(-1), facts) && c.e.entails(c.e.lin(ph), facts)
-			for _, ed := range ph.Edges {
-				if k, isC := ed.(*ssa.Const); isC && constString(k) != "0" {
-					okIdx = false
-				}
-				if b, isB := ed.(*ssa.BinOp); isB && r.D.D(b.Y) != "1" {
-					okIdx = false
-				}
-			}
+			okIdx = len(nf) == 1 && c.counterCovers(ph, fti.Block(), c.e.lin(nf[0]))
 		} else {
 			okIdx = false
 		}
-		r.Check(kp+"fields-in-order", okIdx, r.Where(fti), "one counter i = 0,1,… < NumField selects Type.Field(i) (tag, name, kind) and v.Field(i)")
+		r.Check(kp+"fields-in-order", okIdx, r.Where(fti), "one counter i = 0,1,… < NumField (every field, none left out) selects Type.Field(i) (tag, name, kind) and v.Field(i)")
 		// the per-field info is what the recursive call receives
 		rec := "tls." + c.name
 		for _, call := range callsIn(c, structCase, rec) {
@@ -149,17 +140,27 @@ func c09R3(r *Run, pf, mf *c09fn) {
 
 	// tag grammar: six keys, each cut at its own length, each feeding its own fields
 	if fn := r.Fn("tls.fieldTagToFieldInfo"); fn != nil {
+		flag := c09SizeFlag(r)
 		wantKeys := map[string]map[string]string{
-			"maxval:":   {"count": "tls.byteCount(strconv.ParseUint(*)#0)", "countSet": "true"},
-			"size:":     {"count": "strconv.ParseUint(*)#0", "countSet": "true"},
-			"maxlen:":   {"count": "tls.byteCount(strconv.ParseUint(*)#0)", "countSet": "true", "maxlen": "strconv.ParseUint(*)#0"},
+			"maxval:":   {"count": "tls.byteCount(strconv.ParseUint(*)#0)", flag: "true"},
+			"size:":     {"count": "strconv.ParseUint(*)#0", flag: "true"},
+			"maxlen:":   {"count": "tls.byteCount(strconv.ParseUint(*)#0)", flag: "true", "maxlen": "strconv.ParseUint(*)#0"},
 			"minlen:":   {"minlen": "strconv.ParseUint(*)#0"},
 			"selector:": {"selector": "strings.Split(p0, \",\")[*][9:]"},
 			"val:":      {"val": "strconv.ParseUint(*)#0"},
 		}
 		seen := map[string]bool{}
-		for _, ci := range CallsTo(fn, "strings.HasPrefix") {
-			call := ci.(*ssa.Call)
+		// a key test is strings.HasPrefix(part, K) with the value cut off by hand (part[len(K):]),
+		// or strings.CutPrefix(part, K), whose first result IS part[len(K):] whenever its second
+		// result (the one tested) is true
+		keyTests := append(CallsTo(fn, "strings.HasPrefix"), CallsTo(fn, "strings.CutPrefix")...)
+		for _, ci := range keyTests {
+			call, isCall := ci.(*ssa.Call)
+			if !isCall {
+				r.Fail("tag-key[deferred]", r.Where(ci), "undecided: key test in a go/defer statement")
+				continue
+			}
+			cutForm := CalleeOf(call) == "strings.CutPrefix"
 			k, isC := call.Call.Args[1].(*ssa.Const)
 			if !isC {
 				r.Fail("tag-key[dynamic]", r.Where(call), "HasPrefix with a non-constant key")
@@ -172,11 +173,23 @@ func c09R3(r *Run, pf, mf *c09fn) {
 				continue
 			}
 			seen[key] = true
+			// the boolean that is tested, and (CutPrefix) the value handed back
+			var tested, cutVal ssa.Value = call, nil
+			if cutForm {
+				tested = CallResult(call, 1)
+				cutVal = CallResult(call, 0)
+				w = map[string]string{}
+				for f, g := range wantKeys[key] {
+					w[f] = strings.Replace(g, "strings.Split(p0, \",\")[*]["+strconv.Itoa(len(key))+":]", "strings.CutPrefix(strings.Split(p0, \",\")[*], "+constString(k)+")#0", 1)
+				}
+			}
 			// region: the true edge of the If testing this call
 			var head *ssa.BasicBlock
-			for _, ref := range *call.Referrers() {
-				if ifi, ok := ref.(*ssa.If); ok && len(ifi.Block().Succs[0].Preds) == 1 {
-					head = ifi.Block().Succs[0]
+			if tested != nil && tested.Referrers() != nil {
+				for _, ref := range *tested.Referrers() {
+					if ifi, ok := ref.(*ssa.If); ok && len(ifi.Block().Succs[0].Preds) == 1 {
+						head = ifi.Block().Succs[0]
+					}
 				}
 			}
 			if head == nil {
@@ -185,13 +198,28 @@ func c09R3(r *Run, pf, mf *c09fn) {
 			}
 			part := call.Call.Args[0]
 			cuts, okCut := 0, true
+			var handCut ssa.Value
 			for _, ref := range *part.Referrers() {
 				if sl, ok := ref.(*ssa.Slice); ok && head.Dominates(sl.Block()) {
 					cuts++
 					okCut = okCut && sl.High == nil && r.D.D(sl.Low) == strconv.Itoa(len(key))
+					handCut = sl
 				}
 			}
-			r.Check(kk+":cut", cuts == 1 && okCut, r.Where(call), fmt.Sprintf("the value is the part after the %d characters of the key", len(key)))
+			if cutForm {
+				// nothing is cut by hand; the value used is the one CutPrefix hands back
+				okCut = cuts == 0 && cutVal != nil
+			} else {
+				okCut = okCut && cuts == 1
+				cutVal = handCut
+			}
+			// what is parsed as the number of this key is that value
+			for _, pu := range CallsTo(fn, "strconv.ParseUint") {
+				if head.Dominates(pu.Block()) {
+					okCut = okCut && cutVal != nil && CallArgs(pu)[0] == cutVal
+				}
+			}
+			r.Check(kk+":cut", okCut, r.Where(call), fmt.Sprintf("the value is the part after the %d characters of the key", len(key)))
 			got := map[string]string{}
 			okSt := true
 			eachInstr(fn, func(in ssa.Instruction) {
@@ -288,7 +316,7 @@ func c09R4(r *Run, pf, mf, rv *c09fn) {
 			r.Check("readVarUint:check-value", okV, r.Where(c), "the value checked is the value returned")
 		}
 		r.FailEdge(fn, "readVarUint", EdgeSpec{Name: "no-size-info", Atom: nilAtom("p1"), Bad: "nil", Want: wantErr(true)})
-		r.FailEdge(fn, "readVarUint", EdgeSpec{Name: "size-not-set", Atom: boolAtom("p1.countSet"), Bad: "F", Want: wantErr(true)})
+		r.FailEdge(fn, "readVarUint", EdgeSpec{Name: "size-not-set", Atom: boolAtom("p1." + c09SizeFlag(r)), Bad: "F", Want: wantErr(true)})
 	}
 	if pf != nil {
 		c09Gate(r, pf, "parseField:readVarUint-gates", "tls.readVarUint", 2)
@@ -423,6 +451,31 @@ func c09R4(r *Run, pf, mf, rv *c09fn) {
 	}
 }
 
+// c09SizeFlag names the field of fieldInfo that says "count holds a size taken from the tag".
+// It is identified by its role in the type, not by its name: fieldInfo has numeric fields
+// (sizes, bounds, the selector value), string fields (names) and exactly ONE boolean field — the
+// flag.  R3 demands that every tag key that writes count writes this field true, R4 that
+// readVarUint refuses to read when it is false; together they are what makes a boolean field the
+// size-known flag, whatever it is called.  No or several boolean fields: undecided (the name
+// "countSet" is then used and the obligations that depend on it fail).
+func c09SizeFlag(r *Run) string {
+	var bools []string
+	if n := r.P.LookupType("tls.fieldInfo"); n != nil {
+		if st, ok := n.Underlying().(*types.Struct); ok {
+			for k := 0; k < st.NumFields(); k++ {
+				if b, isB := st.Field(k).Type().Underlying().(*types.Basic); isB && b.Kind() == types.Bool {
+					bools = append(bools, st.Field(k).Name())
+				}
+			}
+		}
+	}
+	if len(bools) == 1 {
+		return bools[0]
+	}
+	r.Fail("fieldInfo:size-known-flag", "-", fmt.Sprintf("undecided: tls.fieldInfo has %d boolean fields %v; the size-known flag is identified as its only boolean field", len(bools), bools))
+	return "countSet"
+}
+
 // MarshalWithParams returns `out.Bytes(), err` with the stale first err: the
 // bytes are returned only on the path where both callees succeeded.
 func c09MarshalTop(r *Run, fn *ssa.Function) {
@@ -464,6 +517,10 @@ func c09R6(r *Run, pf, mf *c09fn) {
 		body, rec := ftis[0].Block(), recs[0]
 		head := loopHeadOf(ftis[0])
 		stop := map[*ssa.BasicBlock]bool{head: true}
+		// one iteration is walked from the tag lookup to the loop head; where the loop decides
+		// about the next iteration at its end (`for i := range n`) the walk assumes that there is
+		// a next field, so "continues" means: goes on to the next field if there is one
+		lf := c.loopForm(head)
 		// markers
 		var zero, alloc, mark, unmark []ssa.Instruction
 		eachInstr(fn, func(in ssa.Instruction) {
@@ -548,12 +605,13 @@ func c09R6(r *Run, pf, mf *c09fn) {
 				as[i].Dom = []string{v}
 			}
 			key := kp + "variant[" + strings.Join(vs, ",") + "]"
-			err := c.table(body, stop, as, func(val map[string]string, reach *Reach, s Sigma) {
+			err := c.table(body, stop, lf.more, as, func(val map[string]string, reach *Reach, s Sigma) {
 				r.Valuations++
 				rets := reachableReturns(fn, reach)
 				cont := false
 				for _, p := range head.Preds {
-					cont = cont || (reach.Blocks[p] && head.Dominates(p))
+					// (a walk that starts in the head itself: that block being reached says nothing, its back edge does)
+					cont = cont || (reach.Blocks[p] && head.Dominates(p) && (p != head || body != head || reach.Edges[[2]int{p.Index, head.Index}]))
 				}
 				coded := reach.Has(rec)
 				var ok bool
@@ -644,7 +702,7 @@ func c09R6(r *Run, pf, mf *c09fn) {
 		for _, ret := range regionReturns(c, structCase) {
 			okAfter := false
 			for _, b := range r.blocksTesting(fn, func(ci *CondInfo) bool { return ci.Key == "rangeok(make:map[string]bool)" }) {
-				okAfter = okAfter || (b.Dominates(ret.Block()) && head.Dominates(b))
+				okAfter = okAfter || (b.Dominates(ret.Block()) && c.head(structCase) != nil && lf.afterLoop(c.head(structCase), head, b))
 			}
 			r.Check(kp+"success-after-selector-check", okAfter, r.Where(ret), "the struct case succeeds only after all fields and the unserved-selector check")
 		}
